@@ -143,9 +143,9 @@ def write_guard(repo: Repo) -> RuleRun:
         r.check(moved == want, smooth, f"{label}: moved {sorted(moved)}", f"smooth() with {label} moves points {sorted(moved)}; only the free interior points {sorted(want)} may move (boundary {sorted(boundary)} and fixed points must stay)", smooth.node, key=f"moved:{label}")
         r.check(any(c[0] == "backport" for c in calls), smooth, "backport() called", "smooth() does not copy the result back (backport not called)", smooth.node, key=f"backport:{label}")
     # fix_points identifies a junction by coincidence within the merge tolerance
-    cmps = [n for n in ast.walk(fixp.node) if isinstance(n, ast.Compare)]
-    ok_tol = len(cmps) == 1 and isinstance(cmps[0].ops[0], ast.Lt) and ast.unparse(cmps[0].comparators[0]).split(".")[-1] == "TOL" and isinstance(cmps[0].left, ast.Call) and (attr_chain(cmps[0].left.func) or "").split(".")[-1] == "norm"
-    r.check(ok_tol, fixp, "fix_points: norm(point - junction.point) < TOL", f"SmootherBase.fix_points matches points with '{ast.unparse(cmps[0]) if cmps else '?'}' instead of coincidence within TOL: points the user never fixed stay put", fixp.node, key="fix_points:tol")
+    from .. import tolerance
+
+    tolerance.check_functions(r, repo, [fixp.qualname], scan_modules=("optimize.smoother",))
     # value written = average of the *current* neighbour points, axis 0 (Gauss-Seidel order)
     inner0, js_, before, after, calls, this = run_smooth([])
     cur = list(before)
@@ -159,6 +159,84 @@ def write_guard(repo: Repo) -> RuleRun:
             break
         cur[i] = after[i]
     r.check(ok, smooth, "value = average(neighbour points, axis=0)", f"smooth(): {detail}", smooth.node, key="average")
+    # ... also next to a fixed interior point: the fixed neighbour still counts in the average of the free one
+    for fixed_idx in ([3], [2], [1, 4]):
+        inner0, js_, before, after, calls, this = run_smooth(fixed_idx)
+        cur = list(before)
+        ok, detail = True, ""
+        for i in (1, 2, 3, 4):
+            if i in fixed_idx:
+                continue
+            want = ("avg", tuple(cur[k] for k in nb[i]), 0)
+            got = after[i]
+            if not (isinstance(got, tuple) and got[0] == "avg" and sorted(map(repr, got[1])) == sorted(map(repr, want[1])) and got[2] == 0):
+                ok = False
+                detail = f"with point(s) {fixed_idx} fixed, point {i} becomes {got}, expected the average of ALL its edge-connected neighbours {nb[i]} (fixed ones included)"
+                break
+            cur[i] = got
+        r.check(ok, smooth, f"fixed={fixed_idx}: free points average over all neighbours", f"smooth(): {detail}", smooth.node, key=f"average:fixed={fixed_idx}")
+    # fixing accumulates over calls
+    for label, seq in (("fix_indexes twice", [("i", [2]), ("i", [4])]), ("fix_points then fix_indexes", [("p", [3]), ("i", [1])]), ("fix_indexes then fix_points", [("i", [1]), ("p", [3])])):
+        grid_, pts_, js_ = _grid(repo, n, boundary, nb)
+        this = Obj("smoother", cls=sm)
+        ev = Evaluator(repo=repo, module=init.module, call_hook=np_hook({"methods": {"backport"}, "calls": []}))
+        orig = ev.obj_attr
+        ev.obj_attr = lambda obj, attr, orig=orig, grid_=grid_, js_=js_: grid_.get("points")[obj.get("index")] if (attr == "point" and obj in js_) else orig(obj, attr)  # type: ignore[method-assign]
+        _run(ev, init, [this, grid_])
+        want_fixed = set()
+        for kind, idxs in seq:
+            want_fixed |= set(idxs)
+            if kind == "i":
+                _run(ev, fixi, [this, list(idxs)])
+            else:
+                _run(ev, fixp, [this, [pts_[i] for i in idxs]])
+        got_fixed = set(this.get("fixed"))
+        r.check(got_fixed == want_fixed, fixi, f"{label}: fixed = {sorted(got_fixed)}", f"after {label} ({seq}) the fixed set is {sorted(got_fixed)}, expected {sorted(want_fixed)}: an earlier fixing call is forgotten and a point the user fixed gets moved", fixi.node, key=f"fixed-accumulates:{label}")
+    # the requested number of sweeps is carried out: a 1-D float model in which the LAST free point already sits at its neighbours'
+    # average while the first ones are far from theirs (an early exit that looks at one point only would stop after one sweep)
+    nb2 = {1: [0, 2], 2: [1, 3], 3: [2, 5], 4: [5, 0]}
+    start = [0.0, 9.0, 9.0, 9.0, 5.0, 10.0]
+    for iters in (1, 3):
+        grid_ = Obj("grid")
+        pts_ = list(start)
+        grid_.set("points", pts_)
+        js_ = []
+        for i in range(n):
+            j = Obj(f"j{i}")
+            j.set("index", i)
+            j.set("is_boundary", i in boundary)
+            js_.append(j)
+        for i, j in enumerate(js_):
+            j.set("neighbours", [js_[k] for k in nb2.get(i, [])])
+        grid_.set("junctions", js_)
+
+        def fhook(ev, call, name):
+            nm = (name or "").split(".")[-1]
+            if nm in ("average", "mean") and call.args:
+                vals = ev.eval(call.args[0])
+                return sum(vals) / len(vals)
+            if nm == "norm" and call.args:
+                return abs(ev.eval(call.args[0]))
+            if nm in ("array", "asarray") and call.args:
+                return ev.eval(call.args[0])
+            if isinstance(call.func, ast.Attribute) and call.func.attr == "backport":
+                return None
+            return NO_MATCH
+
+        this = Obj("smoother", cls=sm)
+        ev = Evaluator(repo=repo, module=init.module, call_hook=fhook)
+        ev.float_arith = True
+        orig = ev.obj_attr
+        ev.obj_attr = lambda obj, attr, orig=orig, grid_=grid_, js_=js_: grid_.get("points")[obj.get("index")] if (attr == "point" and obj in js_) else orig(obj, attr)  # type: ignore[method-assign]
+        _run(ev, init, [this, grid_])
+        _run(ev, smooth, [this, iters])
+        ref = list(start)
+        for _ in range(iters):
+            for i in (1, 2, 3, 4):
+                ref[i] = sum(ref[k] for k in nb2[i]) / len(nb2[i])
+        got = list(grid_.get("points"))
+        same = all(isinstance(g, (int, float)) and abs(g - w) < 1e-9 for g, w in zip(got, ref))
+        r.check(same, smooth, f"{iters} sweep(s) carried out", f"smooth(iterations={iters}) on the 1-D model {start} (neighbours {nb2}) gives {got}; {iters} Gauss-Seidel sweep(s) give {ref} - sweeps are skipped although free points are still away from their neighbours' average", smooth.node, key=f"sweeps:{iters}")
     return r
 
 
